@@ -11,7 +11,7 @@ CUSTOM = ENUMS["BuiltinOperator"]["CUSTOM"]
 
 
 class Tensor:
-    __slots__ = ("idx", "name", "shape", "type", "dtype", "buffer", "data", "scale", "zp", "qdim", "raw", "is_variable")
+    __slots__ = ("idx", "name", "shape", "type", "dtype", "buffer", "data", "scale", "zp", "qdim", "raw", "is_variable", "qmin", "qmax")
 
     def elems(self):
         return int(np.prod(self.shape)) if len(self.shape) else 1
@@ -61,6 +61,8 @@ def load(buf):
         d = buffers[T.buffer].get("Data") if T.buffer else None
         T.data = bytes(d) if d is not None and len(d) else None
         q = t.get("Quantization")
+        T.qmin = [float(v) for v in q["Min"]] if q is not None and q.get("Min") is not None and len(q["Min"]) else None
+        T.qmax = [float(v) for v in q["Max"]] if q is not None and q.get("Max") is not None and len(q["Max"]) else None
         if q is not None and q.get("Scale") is not None and len(q["Scale"]):
             T.scale = [float(s) for s in q["Scale"]]
             T.zp = [int(z) for z in (q["ZeroPoint"] if q.get("ZeroPoint") is not None else [])]
